@@ -208,6 +208,19 @@ async fn echo_raw(
     r
 }
 
+/// An endpoint whose own limit is far below the server default.
+#[endpoint { method = PUT, path = "/small", request_body_max_bytes = 16 }]
+async fn echo_small(
+    rqctx: RequestContext<SimCtx>,
+    body: UntypedBody,
+) -> Result<Response<Body>, HttpError> {
+    let (nonce, g) = delay(&rqctx).await;
+    let args = json!({"body": hex(body.as_bytes())});
+    let r = respond(nonce, args, ctx_json(&rqctx));
+    g.finish();
+    r
+}
+
 #[endpoint { method = PUT, path = "/stream", request_body_max_bytes = 1048576 }]
 async fn echo_stream(
     rqctx: RequestContext<SimCtx>,
@@ -517,6 +530,7 @@ pub fn register(api: &mut ApiDescription<SimCtx>, versioned: bool) {
     api.register(echo_form).unwrap();
     api.register(echo_raw).unwrap();
     api.register(echo_stream).unwrap();
+    api.register(echo_small).unwrap();
     api.register(echo_rawreq).unwrap();
     api.register(echo_page).unwrap();
     api.register(echo_who).unwrap();
